@@ -1,22 +1,41 @@
-"""Router test tables (routers.py RouterCase): NO_ARGS_TESTS and the keys of TEST_VALIDATIONS."""
-import ast
+"""Router test tables (routers.py RouterCase): the known test types and the tests without arguments.
 
-from ..extract_tables import _find_class, _parse, lean_str_list
+HOW IT READS (DESIGN §2.5a): BEHAVIOUR — `RouterCase(w, ["x"], <category>)` is built for every candidate
+word (string constants of routers.py, strings held by the class's attributes): a word it refuses
+(ValueError) is not a test type; a test type whose case comes out with an empty argument list is a
+no-argument test.  Names / shapes of the class constants (`NO_ARGS_TESTS`, `TEST_VALIDATIONS`) do not
+matter.  Both are SETS (membership tests): emitted SORTED."""
+import contextlib
+import io
+
+from .. import t1lib
+from ..extract_tables import _parse, lean_str_list
+
+
+def router_tests():
+    """(sorted test types, sorted no-argument tests)"""
+    routers = t1lib.load("rpft.rapidpro.models.routers")
+    words = t1lib.str_constants(_parse("rapidpro/models/routers.py"))
+    words += [w for w in t1lib.runtime_strings(routers.RouterCase, routers) if w not in words]
+    types, no_args = [], []
+    sink = io.StringIO()
+    for w in words:
+        try:
+            with contextlib.redirect_stdout(sink):      # a wrong number of arguments is only a printed warning
+                case = routers.RouterCase(w, ["t1 probe"], "t1-category")
+        except Exception:  # noqa: BLE001
+            continue
+        types.append(w)
+        if case.arguments == []:
+            no_args.append(w)
+    assert types and no_args, (types, no_args)
+    return sorted(types), sorted(no_args)
 
 
 def tables() -> str:
-    cls = _find_class(_parse("rapidpro/models/routers.py"), "RouterCase")
-    no_args = None
-    types = None
-    for n in cls.body:
-        if isinstance(n, ast.Assign) and isinstance(n.targets[0], ast.Name):
-            if n.targets[0].id == "NO_ARGS_TESTS":
-                no_args = sorted(ast.literal_eval(n.value))
-            if n.targets[0].id == "TEST_VALIDATIONS":
-                assert isinstance(n.value, ast.Dict)
-                types = [ast.literal_eval(k) for k in n.value.keys]
-    assert no_args is not None and types is not None
+    types, no_args = router_tests()
     return (
+        "-- sets (membership tests), sorted\n"
         f"def routerNoArgsTests : List (List Char) := {lean_str_list(no_args)}\n"
         f"def routerTestTypes : List (List Char) := {lean_str_list(types)}\n"
     )
